@@ -94,6 +94,10 @@ def main(argv):
                 mod.run(ctx)
         finally:
             cov.stop()
+        one = cov.one_sided()
+        if one:
+            ctx.one_sided = one
+            ctx.notes.append(f"{len(one)} condition(s) in new statements of changed functions always went the same way")
         unc = cov.uncovered()
         if unc:
             ctx.uncovered = unc
